@@ -1,14 +1,14 @@
 #!/bin/bash
-# store_mutant.sh <id> <property> <worktree> <needs>: copy a confirmed seeded change into /verif/seeded/<id>/
+# store_mutant.sh <id> <property> <worktree> <needs>: copy a confirmed seeded change into ${VERIF_HOME:-/verif}/seeded/<id>/
 id=$1; prop=$2; wt=$3; needs="$4"
-mkdir -p /verif/seeded/$id
-cp $wt/demo/patch.diff /verif/seeded/$id/patch.diff 2>/dev/null || git -C $wt diff -- SRC > /verif/seeded/$id/patch.diff
-cp $wt/demo/demo.c $wt/demo/build_and_run.sh $wt/demo/verify.log /verif/seeded/$id/ 2>/dev/null
-cp $wt/demo/REPORT.md /verif/seeded/$id/ 2>/dev/null
+mkdir -p ${VERIF_HOME:-/verif}/seeded/$id
+cp $wt/demo/patch.diff ${VERIF_HOME:-/verif}/seeded/$id/patch.diff 2>/dev/null || git -C $wt diff -- SRC > ${VERIF_HOME:-/verif}/seeded/$id/patch.diff
+cp $wt/demo/demo.c $wt/demo/build_and_run.sh $wt/demo/verify.log ${VERIF_HOME:-/verif}/seeded/$id/ 2>/dev/null
+cp $wt/demo/REPORT.md ${VERIF_HOME:-/verif}/seeded/$id/ 2>/dev/null
 python3 - "$id" "$prop" "$needs" <<'PY'
 import json,sys
 id,prop,needs=sys.argv[1:4]
 json.dump({"id":id,"breaks_property":prop,"needs_to_manifest":needs,"origin":"independent sub-agent given only the property text and a scratch worktree",
  "confirmed_by":"selftest/verify_mutant.sh in the scratch worktree: builds, 48/48 pinned tests pass with the change, demo exits non-zero with it and 0 without it (see verify.log)",
- "checks_run":[]},open('/verif/seeded/%s/meta.json'%id,'w'),indent=1)
+ "checks_run":[]},open(__import__('os').environ.get('VERIF_HOME','/verif')+'/seeded/%s/meta.json'%id,'w'),indent=1)
 PY
